@@ -4,7 +4,6 @@ pub uninterp spec fn key(piece: u64, sq: u32, color: u32) -> u64;
 pub uninterp spec fn ep_key(file: u32) -> u64;
 pub uninterp spec fn castle_key(side: u64, color: u32) -> u64;
 
-pub open spec fn bit_set(occ: u64, i: u32) -> bool { (occ >> i) & 1 == 1 }
 /// xor of the keys of all set squares with index < n
 pub open spec fn fold_keys(occ: u64, piece: u64, color: u32, n: u32) -> u64
     decreases n
